@@ -238,21 +238,27 @@ def check_C01(A: Analysis, tier):
              and a.targets[0].id == yname]
     walrus = [w for w in ast.walk(lp.test) if isinstance(w, ast.NamedExpr) and isinstance(w.value, ast.Call) and w.target.id == yname] \
         if isinstance(lp, ast.While) else []
-    if len(reads) + len(walrus) != 1:
-        raise AnalysisError("Stream.__iter__: expected exactly one `x = <read call>` (or `while x := <read call>`) producing the yielded chunk")
+    if len(reads) + len(walrus) == 0 or (walrus and reads):
+        raise AnalysisError("Stream.__iter__: expected `x = <read call>` assignment(s) (or `while x := <read call>`) producing the yielded chunk")
     if walrus:
         var = walrus[0].target.id
-        rcall = walrus[0].value
         reads = [walrus[0]]
     else:
         var = reads[0].targets[0].id
-        rcall = reads[0].value
-    if norm(rcall.func) != "self._obj.read":
-        rd1.fail(itf, rcall, f"chunks are obtained with `{norm(rcall.func)}(...)`, not `self._obj.read(...)` of the wrapped object: other read primitives "
-                 "(read1, readline, a cached bound method) may return short blocks or different data", A.p.loc(itf, rcall))
-    rarg = rcall.args[0] if rcall.args else None
-    if rarg is not None and not (norm(rarg) == "self._buffer_size" or isinstance(rarg, (ast.Name, ast.Attribute))):
-        rd1.fail(itf, reads[0], f"chunks are read with size `{norm(rarg)}`, not the stream's buffer size", A.p.loc(itf, reads[0]))
+    for rd_ in reads:
+        rcall = rd_.value
+        if norm(rcall.func) != "self._obj.read":
+            rd1.fail(itf, rcall, f"chunks are obtained with `{norm(rcall.func)}(...)`, not `self._obj.read(...)` of the wrapped object: other read primitives "
+                     "(read1, readline, a cached bound method) may return short blocks or different data", A.p.loc(itf, rcall))
+        rarg = rcall.args[0] if rcall.args else None
+        if rarg is not None and not (norm(rarg) == "self._buffer_size" or isinstance(rarg, (ast.Name, ast.Attribute))):
+            rd1.fail(itf, rd_, f"chunks are read with size `{norm(rarg)}`, not the stream's buffer size", A.p.loc(itf, rd_))
+    if isinstance(lp, ast.While) and not (walrus and lp.test is walrus[0]) and not (isinstance(lp.test, ast.Constant) and lp.test.value):
+        # the loop's own condition is a second way out: only an empty read says that the source is exhausted (a length taken from the
+        # file's name, a chunk counter, ... can disagree with what the handle delivers)
+        rd1.fail(itf, f"while {norm(lp.test)}", f"the read loop also ends when `{norm(lp.test)}` turns false, not only on an empty read: the content is cut "
+                 "wherever that condition disagrees with the bytes the handle delivers (a stream whose name is a shorter file, a compressed stream)",
+                 A.p.loc(itf, lp))
     if len(yields) != 1 or not (isinstance(yields[0], ast.Yield) and isinstance(yields[0].value, ast.Name) and yields[0].value.id == var
                                 and any(yields[0] is x for x in ast.walk(lp))):
         rd1.fail(itf, yields[0], "what the stream yields is not exactly each chunk it read (once)", A.p.loc(itf, yields[0]))
@@ -1420,17 +1426,36 @@ def check_C14(A: Analysis, tier):
             return True
         return None
 
-    it_a = A.run(Q("_verify_hashstore_properties"), "th", tagk="config-exists", assume=cfg_exists)
+    # the verifier is judged on its own when it still takes the caller's dictionary; when it was handed a validated record instead
+    # (a dataclass built by the validator), on the constructor: the equalities must then hold at the constructor's normal returns
+    ctor_mode = "properties" not in [a.arg for a in vp.node.args.args + vp.node.args.kwonlyargs]
+    it_a = A.run(Q("__init__") if ctor_mode else Q("_verify_hashstore_properties"), "th", tagk="config-exists", assume=cfg_exists)
+
+    def _supplied_key(t):
+        """properties[k] / properties.get(k), possibly under int(): the key k"""
+        if tag(t) == "int" and isinstance(t[1], tuple):
+            t = t[1]
+        if tag(t) == "item" and t[1] == P("properties") and tag(t[2]) == "const":
+            return t[2][1]
+        if tag(t) == "callres" and t[1] == "get" and len(t) > 2 and len(t[2]) == 2 and t[2][0] == (P("properties"),) \
+                and len(t[2][1]) == 1 and len(t[2][1][0]) == 1 and tag(t[2][1][0][0]) == "const":
+            return t[2][1][0][0][1]
+        return None
 
     def keys_in(v):
         out = set()
         for t in v:
+            if ctor_mode and _supplied_key(t) is not None:
+                out.add(_supplied_key(t))
+                continue
             for x in subterms(t):
                 if tag(x) == "item" and tag(x[2]) == "const":
                     out.add(x[2][1])
         return out
 
     def from_props(v):
+        if ctor_mode:
+            return bool(v) and all(_supplied_key(t) is not None for t in v)
         return any(P("properties") in subterms(t) for t in v)
 
     pinned = [k for k in req if k != "store_path"]
@@ -1455,7 +1480,8 @@ def check_C14(A: Analysis, tier):
                 ra.fail(vp, f"comparison of {k}", f"_verify_hashstore_properties can accept the supplied properties without having established that "
                         f"`{k}` equals the value stored under the same key in hashstore.yaml: a store could be reopened with another {k}",
                         A.p.loc(vp, vp.node))
-            elif any(tag(x) in ("strop", "callres", "slice") for side in hit for t in side for x in subterms(t)):
+            elif any(tag(x) in ("strop", "callres", "slice") for side in hit for t in side for x in subterms(t)
+                     if not (ctor_mode and tag(x) == "callres" and _supplied_key(x) is not None)):
                 ops = sorted({x[1] for side in hit for t in side for x in subterms(t) if tag(x) == "strop"})
                 ra.fail(vp, f"comparison of {k}", f"`{k}` is compared after a string transformation ({', '.join(map(str, ops)) or 'call'}) of the stored / supplied value, not for "
                         "equality of the values themselves: a configuration that differs from the pinned one (e.g. in letter case - another namespace, hence "
@@ -1564,14 +1590,14 @@ def check_C14(A: Analysis, tier):
         if atom[0] == "probe" and atom[1] in ("isfile", "exists", "isdir"):
             if any(classify(t).cls == "CONFIG" for t in atom[2]):
                 return False
-            if atom[1] == "exists" and all(tag(t) == "param" for t in atom[2]):
+            if atom[1] == "exists" and all(tag(t) in (("param", "root") if ctor_mode else ("param",)) for t in atom[2]):
                 return True
         return None
 
-    it_d = A.run(Q("_verify_hashstore_properties"), "th", tagk="no-config", assume=no_cfg)
+    it_d = A.run(Q("__init__") if ctor_mode else Q("_verify_hashstore_properties"), "th", tagk="no-config", assume=no_cfg)
     probed = set()
     for ev in it_d.events:
-        if ev.kind == "PROBE" and ev.prim.endswith(("isdir", "exists")):
+        if ev.kind == "PROBE" and ev.prim.endswith(("isdir", "exists")) and (not ctor_mode or vp.qual in ev.ctx):
             for t in ev.paths[0]:
                 if tag(t) == "join" and len(t[1]) == 2 and tag(t[1][0]) in ("param", "root") and is_const_str(t[1][1]):
                     probed.add(t[1][1][1])
